@@ -65,7 +65,12 @@ def gen_plan(rng, tier):
     if rng.random() < 0.3:
         p['slow_connect'] = rng.choice([5, 30])
     p.update(strategy=gen_strategy(rng), line_p=rng.choice([0, 0, 0.01]), points=rng.choice([0, 2, 4]), time_jump_p=rng.choice([0, 0, 0.05]))
-    if rng.random() < 0.4:
+    if rng.random() < 0.3:
+        # focused stalls in the two functions that race when a connection is replaced: a borrower that read the old connection
+        # before the swap, and _replace between deciding and acting
+        p['focus_stall'] = [rng.choice([['borrow_connection', '_replace'], ['borrow_connection', '_replace'], ['return_connection', '_replace'],
+                                        'borrow_connection', '_replace']), rng.choice([0.1, 0.2, 0.3]), rng.choice([0.02, 0.05, 0.2])]
+    elif rng.random() < 0.4:
         # stalled threads: a pool/loop/executor thread is descheduled between two lines of borrow/return/_replace while live requests
         # are answered at about the time the replacement completes
         p.update(stall=[rng.choice([0.3, 0.6]), rng.choice([0.02, 0.1, 0.4])], line_p=rng.choice([0.01, 0.03]), points=rng.choice([4, 8]))
